@@ -847,6 +847,20 @@ def run(ck):
     check_outpos(ck, prog)
     check_window(ck, prog)
     check_limit_terms(ck, prog)
+    # a mid-stream lc/lp/pb change must reset the encoder's model too (C12), and the size bound that becomes the Compressed
+    # Size of the uncompressed fallback must be exact (C02): both are necessary for the stream to decode to the input
+    from .oblig import MP as _MP, evaluate as _evaluate
+    ck.rule("C01-DRAIN", "lzma_lzma_encode reports the end of the stream only after rc_encode() has written every pending byte")
+    _evaluate(ck, common.program(ck, ("liblzma",)), "C01-DRAIN", [
+        _MP("end-after-drain", "lzma_lzma_encode", "lzma_encoder.c", [("test", "call:rc_encode", "F")],
+            ("ret", ("LZMA_STREAM_END",)), plain=True,
+            why="LZMA_STREAM_END is returned only on paths where an rc_encode() call reported that nothing is left pending "
+                "(otherwise the last bytes of an .lzma stream are lost when the output buffer filled during the final flush)"),
+    ], floor=1)
+    from . import C12, C02
+    ck.rule("C12-UPD", "update functions: allowed states and validation order")
+    C12.check_upd(ck, common.program(ck, ("liblzma",)))
+    C02.check_bound(ck, common.program(ck, ("liblzma",)))
     from . import C03
     pdec = common.program(ck, ("liblzma",), files=("/lz/lz_decoder.c", "/lzma/lzma_decoder.c"))
     C03.check_dict_siblings(ck, pdec)
